@@ -263,7 +263,7 @@ PROPS = {
     "C10": {
         "required_theorems": ["c10_samplewise", "c10_nrzi", "c10_nrzi_xor_tee_delay", "c10_skip", "c10_delay", "c10_rtlsdr",
                               "c10_s2pdu", "c10_resampler", "c10_v2s", "c10_v2s_call", "c10_constant_source", "c10_fft_stream", "c10_fft_stream_call",
-                              "c10_vector_sink", "c10_vector_sink_call", "c10_null_sink"],
+                              "c10_vector_sink", "c10_vector_sink_call", "c10_null_sink", "c10_set_delay"],
         "runs": [
             {"sub": "blocks", "quick": ["--seed", "{seed}", "--set", "modelled", "--cases", 1600, "--steps", 30],
              "thorough": ["--seed", "{seed}", "--set", "modelled", "--cases", 80000, "--steps", 60]},
